@@ -43,6 +43,7 @@ def run(project, rep):
     from .. import rules_parser as P
     rep.run(P.x_rules, project, rep)
     rep.run(W.l_r1_decimal, project, rep)
+    rep.run(W.l_r3_datetime, project, rep)
     from .. import rules_dates as Z
     rep.rule("W-R9", "date-times survive as instants: writer offset notation inside the reader grammar (Z-R3), field-to-value plumbing (Z-R4), minutes take the sign of the hours (Z-R5)")
     rep.run(Z.z_r3_writer_shape, project, rep)
